@@ -322,9 +322,14 @@ def _get_type_info(cls, cls_name, cls_bases, cls_dict, attrs):
                     "fields from multiple classes.")
 
             # a base without fields of its own still is a link of the chain
-            # when it extends something itself
+            # when it extends something itself or when it's not one of the
+            # roots like ComplexModel (or a customized one), which derive from
+            # plain classes.
             if (len(base_types) > 0 or
-                      getattr(b, '__extends__', None) is not None) \
+                      getattr(b, '__extends__', None) is not None or
+                      (getattr(b, '__orig__', None) is None and
+                          any(isinstance(bb, ComplexModelMeta)
+                                                  for bb in b.__bases__))) \
                                                and issubclass(b, ModelBase):
                 extends = cls_dict["__extends__"] = b
                 assert extends.__orig__ is None, "You can't inherit from a " \
